@@ -163,7 +163,10 @@ def fmt_pattern(fn, pattern):
 
 
 class Analyzer:
+    unresolved = None
+
     def __init__(self, prog, asm_summary=None):
+        self.unresolved = []
         self.prog = prog
         self.memo = {}
         self.in_progress = set()
@@ -430,7 +433,17 @@ class FnWalk:
                 return inner.add_off(e.get('baseoff', 0), t.get('size'))
             return inner.with_size(t.get('size'))
         if k == 'cond':
-            return None
+            # `(this == &b) ? b : a`: the aliasing pattern decides pointer equalities; an undecided choice is resolved towards the
+            # operand that aliases an output (the conservative one for hazard detection)
+            v = self.cond_value(e['c'])
+            a, b = self.lvalue(e['then']), self.lvalue(e['else'])
+            if v is True:
+                return a
+            if v is False:
+                return b
+            cands = [p for p in (a, b) if p is not None]
+            best = [p for p in cands if p.from_input is not None or p.root[0] == 'slot'] or cands
+            return best[0] if best else None
         return None
 
     def pointer(self, e):
@@ -502,7 +515,15 @@ class FnWalk:
         if k == 'ref' and t.get('k') == 'array':
             return self.lvalue(e)
         if k == 'cond':
-            return None
+            v = self.cond_value(e['c'])
+            a, b = self.pointer(e['then']), self.pointer(e['else'])
+            if v is True:
+                return a
+            if v is False:
+                return b
+            cands = [p for p in (a, b) if p is not None]
+            best = [p for p in cands if p.from_input is not None or p.root[0] == 'slot'] or cands
+            return best[0] if best else None
         return None
 
     # ----- events -----
@@ -893,6 +914,10 @@ class FnWalk:
                         if p is not None:
                             self.binds[v['id']] = p
                             self.local_is_ref[v['id']] = True
+                        elif (t.get('pointee') or {}).get('k') in ('record', 'union', 'array'):
+                            # a reference to an object this walk cannot name would silently be treated as a private local
+                            self.an.unresolved.append('%s: reference local %s at %s is bound to an lvalue the alias analysis cannot resolve' % (
+                                self.fn['qn'], v.get('name'), loc_str(v)))
                     elif t.get('k') == 'ptr':
                         p = self.pointer(init)
                         if p is not None:
